@@ -346,3 +346,55 @@ def lib_np_random_randint(eng, st, args, kw, node):
 
 
 LIB[("numpy.random", "randint")] = lib_np_random_randint
+
+
+def lib_np_clip(eng, st, args, kw, node):
+    """np.clip(x, lo, hi) on scalars = minimum(maximum(x, lo), hi); NaN propagates"""
+    x, lo, hi = [eng.num(st, a, node) for a in args[:3]]
+    if x.t[0] == "int" and lo.t[0] == "int" and hi.t[0] == "int":
+        m = z3.If(x.z < lo.z, lo.z, x.z)
+        return V(("int",), z3.If(m > hi.z, hi.z, m))
+    xf, lf, hf = st.to_float(x).z, st.to_float(lo).z, st.to_float(hi).z
+    eng.ctx.tags.add("AX_numpy_clip_is_min_max")
+    if eng.ctx.float_mode == "fp":
+        m = z3.If(z3.fpLT(xf, lf), lf, xf)
+        r = z3.If(z3.fpGT(m, hf), hf, m)
+        return V(("float",), z3.If(z3.fpIsNaN(xf), xf, r))
+    m = z3.If(xf < lf, lf, xf)
+    return V(("float",), z3.If(m > hf, hf, m))
+
+
+LIB[("numpy", "clip")] = lib_np_clip
+
+
+def lib_np_random_uniform(eng, st, args, kw, node):
+    """np.random.uniform(lo, hi) in [lo, hi) (hi itself only through rounding: [lo, hi] claimed)"""
+    lo, hi = [st.to_float(eng.num(st, a, node)).z for a in args[:2]]
+    st.ghost["rng_used"] = True
+    r = eng.ctx.fresh("uniform", ("float",))
+    if eng.ctx.float_mode == "fp":
+        st.assume(z3.Implies(z3.fpLEQ(lo, hi), z3.And(z3.fpLEQ(lo, r.z), z3.fpLEQ(r.z, hi))))
+    else:
+        st.assume(z3.Implies(lo <= hi, z3.And(lo <= r.z, r.z <= hi)))
+    eng.ctx.tags.add("AX_numpy_uniform_within_bounds")
+    return r
+
+
+LIB[("numpy.random", "uniform")] = lib_np_random_uniform
+
+
+def lib_np_random_choice(eng, st, args, kw, node):
+    """np.random.choice(range(0, n)): an element of the range"""
+    a = args[0]
+    st.ghost["rng_used"] = True
+    if is_static(a, "range") and len(args) == 1 and not kw:
+        lo, hi = a.items
+        r = eng.ctx.fresh("choice", ("int",))
+        eng.safety(st, hi > lo, "choice-of-empty", node, "np.random.choice of an empty range raises")
+        st.assume(z3.And(r.z >= lo, r.z < hi))
+        eng.ctx.tags.add("AX_numpy_choice_is_a_member")
+        return r
+    raise Unsupported("np.random.choice form")
+
+
+LIB[("numpy.random", "choice")] = lib_np_random_choice
